@@ -234,8 +234,10 @@ void tsgEvaluateBatch(void *grid, const double *x, int num_x, double *y){ ((Tasm
 void tsgBatchGetInterpolationWeightsStatic(void *grid, const double *x, int num_x, double *weights){
     TasmanianSparseGrid* tsg = (TasmanianSparseGrid*) grid;
     int iNumDim = tsg->getNumDimensions(), iNumPoints = tsg->getNumPoints();
+    // the first call may fill an internal cache of the grid (the interpolation matrix of a wavelet grid), keep it out of the parallel region
+    if (num_x > 0) tsg->getInterpolationWeights(x, weights);
     #pragma omp parallel for
-    for(int i=0; i<num_x; i++){
+    for(int i=1; i<num_x; i++){
         tsg->getInterpolationWeights(&(x[i*iNumDim]), &(weights[i*iNumPoints]));
     }
 }
